@@ -100,7 +100,13 @@ OnStep(r, ev) ==
                [] ev.out = "INT" /\ ev.arg = 3 -> Pending("int3", e, ev.idx)
                [] ev.out = "INT" /\ ev.arg \in {16, 33} /\ ~SupportedAh(ev.arg, Hi(ev.regs["ax"])) -> Pending("badah", e, ev.idx)
                [] OTHER -> << >>
-  IN \* a prompt must have preceded this invocation while stepping (optional before re-invoking a REP line)
+  IN \* an instruction of a program that must be refused: its tree may not even have a meaning (a data operand naming a
+     \* code label): nothing of the model is evaluated on it, the run is left to be reported by its later events too
+     IF refused
+     THEN /\ Check(FALSE, "reject-" \o r.refuse, <<"an instruction of a program that must be refused was executed", ev.line>>)
+          /\ run' = [r EXCEPT !.d = [d EXCEPT !.phase = "done", !.outfree = TRUE, !.why = "unexpected"]]
+     ELSE
+     \* a prompt must have preceded this invocation while stepping (optional before re-invoking a REP line)
      /\ Check(d.phase = "invoke" \/ (d.phase = "fetch" /\ (~due \/ d.rep)), "prompt",
               <<"instruction invoked in phase", d.phase, "prompt due", due>>)
      /\ Check(~refused, "reject-" \o r.refuse, <<"an instruction of a program that must be refused was executed", ev.line>>)
